@@ -196,7 +196,8 @@ fn run_c12(input: &Input, ctx: &Ctx, tier: Tier) -> CaseOut {
     let with_repeat: u8 = [0, 0, 0, 1, 2][ta.pick(5)];
     let tree = gen_tree(&mut ta, &p);
     let mut tb = Tape::new(input.b.clone());
-    let stream = linearise(&mut tb, &tree, true, true);
+    let started_first = tb.chance(1, 2);
+    let stream = linearise(&mut tb, &tree, true, started_first);
     let mut replay: Vec<Ev> = stream.iter().filter(|e| matches!(decode(e).what, What::Step { .. } | What::HookFailed(..) | What::ParserError(_) | What::ScFinished)).step_by(2).take(12).cloned().collect();
     // a repeat wrapper with a custom filter may also replay run-level events, run-Finished included
     if ta.chance(1, 2) {
@@ -241,7 +242,10 @@ fn run_c13(input: &Input, ctx: &Ctx, tier: Tier) -> CaseOut {
     let tree = gen_tree(&mut ta, &p);
     let mut tb = Tape::new(input.b.clone());
     let mode = tb.pick(4);
-    let mut stream = linearise(&mut tb, &tree, mode == 0, true);
+    // runner::Basic delivers parser errors and ParsingFinished of an eager parser *before*
+    // run-Started: the wrappers must not depend on Started coming first
+    let started_first = tb.chance(1, 2);
+    let mut stream = linearise(&mut tb, &tree, mode == 0, started_first);
     if mode == 3 {
         // not contract-abiding: rotate and duplicate run-Finished in the middle
         let n = stream.len();
@@ -311,7 +315,8 @@ fn run_c14(input: &Input, ctx: &Ctx, tier: Tier) -> CaseOut {
     let o = super::c14::Opts { verbosity: ta.pick(3) as u8, show_output: ta.chance(1, 2), report_time: ta.chance(1, 3), junit_verbose: ta.chance(1, 3) };
     let tree = gen_tree(&mut ta, &p);
     let mut tb = Tape::new(input.b.clone());
-    let stream = linearise(&mut tb, &tree, seq, true);
+    let started_first = tb.chance(1, 2);
+    let stream = linearise(&mut tb, &tree, seq, started_first);
     crate::lab::driver::install_probe_hook();
     let mut violations = super::c14::check_all(&stream, &o);
     let own = own_steps_table(&tree);
@@ -388,7 +393,8 @@ fn run_c01(input: &Input, ctx: &Ctx, tier: Tier) -> CaseOut {
         let mut ta = Tape::new(a_rest);
         let seq = ta.chance(1, 4);
         let tree = gen_tree(&mut ta, &p);
-        let stream = linearise(&mut tb, &tree, seq, true);
+        let started_first = tb.chance(1, 2);
+        let stream = linearise(&mut tb, &tree, seq, started_first);
         let s = sample(&tree, &stream, json!({}));
         let d: String = stream.iter().map(|e| format!("{:?};", decode(e).what)).collect();
         (stream, s, tree.excluded, d, None)
